@@ -298,7 +298,8 @@ def run(ctx):
     for lvl in range(1, depth + 1):
         lvl_traces, owners = [], []
         for ci, cfg in enumerate(cfgs):
-            ts, cands = bfs_level(cfg, frontiers[ci], seens[ci], full=True)
+            # quick tier: the last level uses the reduced alphabet (no re-entrant whenConnected/stopService scripts)
+            ts, cands = bfs_level(cfg, frontiers[ci], seens[ci], full=not (ctx.quick and lvl == depth))
             lvl_traces.extend(ts)
             owners.extend((ci, c) for c in cands)
             frontiers[ci] = []
